@@ -855,7 +855,10 @@ def build():
                Rule('R26', r'Ok\(Some\(uri_a\) == uri_b\.as_deref\(\)\)', 'Ok(shim_uri_eq(&uri_a, &uri_b))', 'Option<&str> comparison -> shim'),
                Rule('R35', r'node\.node_name\(\) == \*target', 'shim_string_eq_str(&node.node_name(), *target)', 'String == str -> shim'),
                R_UNIMPL, R_NODETYPE])
-    fns['eval_predicate'] = Fn(FE, None, 'eval_predicate', props=P, safety_props=['C06'], attrs=[NODEC], ensures=[C19], rules=[R_TOBOOL, R_F64CAST])
+    fns['eval_predicate'] = Fn(
+        FE, None, 'eval_predicate', props=P, safety_props=['C06'], attrs=[NODEC], ensures=[C19], rules=[R_TOBOOL, R_F64CAST],
+        requires=[('C05:proximity_position_is_between_1_and_the_context_size',
+                   'old(context).position@.len() > 0 && old(context).size@.len() > 0 && 1 <= old(context).position@.last() <= old(context).size@.last()')])
     fns['eval_func_expr'] = Fn(
         FE, None, 'eval_func_expr', props=P, safety_props=['C06'], attrs=[NODEC], ensures=[C19, C07SET],
         rules=[Rule('R27', r'let entry = table\s*\.iter\(\)\s*\.find\(\|v\| v\.local_part\(\) == local_part && v\.namespace_uri\(\) == uri\.as_deref\(\)\)\s*\.ok_or_else\(\|\| error::Error::NotFoundFunction\(local_part\.to_string\(\)\)\)\?;',
